@@ -604,6 +604,105 @@ def g14_derived_value_cached_before_source_changes(fn):
     return findings
 
 
+def g2c_early_return_memo(fn):
+    """`if self.X is not None: return self.X` ... `self.X = value` where the value depends on a parameter of the method:
+    the first call fixes what every later call returns, whatever its arguments."""
+    findings = []
+    params = {a.arg for a in fn.args.args[1:] + fn.args.kwonlyargs}
+    if not params:
+        return findings
+    for iff in [n for n in own_nodes(fn) if isinstance(n, ast.If)]:
+        t = iff.test
+        attr = None
+        if isinstance(t, ast.Compare) and len(t.ops) == 1 and isinstance(t.ops[0], ast.IsNot) and isinstance(t.comparators[0], ast.Constant) \
+                and t.comparators[0].value is None and isinstance(t.left, ast.Attribute) and src(t.left.value) == 'self':
+            attr = t.left.attr
+        elif isinstance(t, ast.Attribute) and src(t.value) == 'self':
+            attr = t.attr
+        if attr is None or not iff.body or not isinstance(iff.body[-1], ast.Return) or iff.body[-1].value is None \
+                or src(iff.body[-1].value) != 'self.' + attr:
+            continue
+        # the test must not mention a parameter (then it is keyed)
+        if any(isinstance(x, ast.Name) and x.id in params for x in ast.walk(t)):
+            continue
+        stores = [s_ for s_ in own_nodes(fn) if isinstance(s_, ast.Assign) and any(src(x) == 'self.' + attr for x in s_.targets)]
+        for st in stores:
+            deps = set()
+            todo = [st.value]
+            seen = set()
+            while todo:
+                e = todo.pop()
+                for x in ast.walk(e):
+                    if isinstance(x, ast.Name) and x.id not in seen:
+                        seen.add(x.id)
+                        if x.id in params:
+                            deps.add(x.id)
+                        for d in own_nodes(fn):
+                            if isinstance(d, ast.Assign) and any(isinstance(tg, ast.Name) and tg.id == x.id for tg in d.targets):
+                                todo.append(d.value)
+            if deps:
+                findings.append(('G2', st, 'the result is memoised in self.%s without a key (`%s`), but the stored value depends on the argument(s) %s: '
+                                           'the first call fixes what all later calls return, whatever they pass'
+                                 % (attr, src(iff).split('\n')[0][:60], ', '.join(sorted(deps)))))
+                break
+    return findings
+
+
+def g17_late_binding_closure(fn):
+    """A lambda / nested function created inside a loop that reads a variable assigned in that loop, and is kept for later
+    (stored in a container, a tuple that is appended, or a variable used after the loop): all closures see the LAST value."""
+    findings = []
+    for loop in [n for n in own_nodes(fn) if isinstance(n, (ast.For, ast.While))]:
+        assigned = set()
+        for s_ in ast.walk(loop):
+            if isinstance(s_, ast.Assign):
+                for t in s_.targets:
+                    for x in ast.walk(t):
+                        if isinstance(x, ast.Name):
+                            assigned.add(x.id)
+        if isinstance(loop, ast.For):
+            for x in ast.walk(loop.target):
+                if isinstance(x, ast.Name):
+                    assigned.add(x.id)
+        for lam in [n for n in ast.walk(loop) if isinstance(n, (ast.Lambda, ast.FunctionDef)) and n is not loop]:
+            if isinstance(lam, ast.Lambda):
+                own = {a.arg for a in lam.args.args + lam.args.kwonlyargs} | ({lam.args.vararg.arg} if lam.args.vararg else set())
+                defaults = lam.args.defaults + [d for d in lam.args.kw_defaults if d is not None]
+                body = lam.body
+                reads = {x.id for x in ast.walk(body) if isinstance(x, ast.Name)} - own
+            else:
+                own = {a.arg for a in lam.args.args + lam.args.kwonlyargs} | {x.id for x in ast.walk(lam) if isinstance(x, ast.Name) and isinstance(x.ctx, ast.Store)}
+                reads = {x.id for st in lam.body for x in ast.walk(st) if isinstance(x, ast.Name) and isinstance(x.ctx, ast.Load)} - own
+            captured = reads & assigned
+            if not captured:
+                continue
+            # kept for later: the closure (or a name bound to it) flows into an append / a container / a yield, and is not
+            # called within the same iteration only
+            holder = parent(lam)
+            kept = False
+            name = None
+            if isinstance(holder, ast.Assign) and len(holder.targets) == 1 and isinstance(holder.targets[0], ast.Name):
+                name = holder.targets[0].id
+            elif isinstance(lam, ast.FunctionDef):
+                name = lam.name
+            for c in ast.walk(loop):
+                if isinstance(c, ast.Call) and isinstance(c.func, ast.Attribute) and c.func.attr in ('append', 'extend', 'add', 'insert', 'setdefault'):
+                    if any(x is lam for a in c.args for x in ast.walk(a)) or \
+                            (name and any(isinstance(x, ast.Name) and x.id == name for a in c.args for x in ast.walk(a))):
+                        kept = True
+                if isinstance(c, ast.Assign) and isinstance(c.targets[0], ast.Subscript) and \
+                        (any(x is lam for x in ast.walk(c.value)) or (name and any(isinstance(x, ast.Name) and x.id == name for x in ast.walk(c.value)))):
+                    kept = True
+                if isinstance(c, (ast.Yield,)) and c.value is not None and \
+                        (any(x is lam for x in ast.walk(c.value)) or (name and any(isinstance(x, ast.Name) and x.id == name for x in ast.walk(c.value)))):
+                    kept = True
+            if kept:
+                findings.append(('G17', lam, 'the closure `%s` is created in a loop, reads `%s` (assigned anew in every iteration) and is kept for use after '
+                                             'the iteration: when it is finally called, every such closure sees the value of the LAST iteration'
+                                 % (src(lam)[:50], ', '.join(sorted(captured)))))
+    return findings
+
+
 def g8_meshgrid_indexing(fn):
     """np.meshgrid defaults to indexing='xy', which swaps the first two axes.  pyiga enumerates tensor-product indices in C
     order (first axis slowest) everywhere -- np.unravel_index, itertools.product, ravel() of coefficient arrays -- so a
@@ -775,10 +874,10 @@ def run(ctx, rule):
             classes.add(f.cls.qual)
         for det in (g1_stale_after_miss, g2_underkeyed, g2b_projection_key, g4_rebound_parameter_forwarded, g6_error_by_difference_of_squares,
                     g8_meshgrid_indexing, g9_optional_number_tested_by_truth, g11_linear_level_factor, g12_triangular_sum_of_asymmetric_summand,
-                    g13_negated_degree_slice, g14_derived_value_cached_before_source_changes):
+                    g13_negated_degree_slice, g14_derived_value_cached_before_source_changes, g2c_early_return_memo, g17_late_binding_closure):
             for kind, node, msg in det(f.node):
                 what = {'G4': 'option forwarding', 'G6': 'error estimate', 'G8': 'index order', 'G9': 'optional argument', 'G11': 'dyadic scaling',
-                        'G12': 'symmetric summation', 'G13': 'degree-0 slice', 'G14': 'stale derived value'}.get(kind, 'memo discipline')
+                        'G12': 'symmetric summation', 'G13': 'degree-0 slice', 'G14': 'stale derived value', 'G17': 'late-binding closure'}.get(kind, 'memo discipline')
                 ctx.violated(rule, f.qual, '%s %s: %s' % (kind, what, src(node)[:80]), node, msg)
     for cq in sorted(classes):
         c = ctx.prog.classes.get(cq)
